@@ -41,6 +41,13 @@ type DialCell struct {
 	// HostHeader: the caller overrides the Host header of the upgrade request;
 	// this names the virtual host, not the server to reach or to verify.
 	HostHeader string `json:"host_header,omitempty"`
+	// HookTLS (wss, no proxy, first hop by NetDial / NetDialContext): the custom
+	// dial function returns a *tls.Conn of its own making (a TLS-wrapped relay
+	// hop, established without verification).  Only NetDialTLSContext is trusted
+	// to have done TLS: the library must still run and verify its own TLS
+	// session for the URL's host inside whatever the function returned - here
+	// that cannot succeed, so Dial fails and the backend sees no handshake.
+	HookTLS bool `json:"hook_tls,omitempty"`
 }
 
 var cellHosts = []string{"backend.test", "backend.test:8443", "b2.backend.test:80", "[2001:db8::1]", "[2001:db8::1]:9000", "10.1.2.3", "10.1.2.3:443", "localhost:8080", "backend.test:443", "backend.test:80"}
@@ -107,7 +114,7 @@ var refusals = []string{
 
 func genDialCell(t *rapid.T) DialCell {
 	var c DialCell
-	c.Proxy = rapid.SampledFrom([]string{"", "http", "http", "https", "https", "socks5"}).Draw(t, "proxy")
+	c.Proxy = rapid.SampledFrom([]string{"", "http", "http", "https", "https", "socks5", "socks5h", "socks4"}).Draw(t, "proxy")
 	c.Secure = rapid.Bool().Draw(t, "secure")
 	c.ND, c.NDC, c.NDTLS = rapid.Bool().Draw(t, "nd"), rapid.Bool().Draw(t, "ndc"), rapid.Bool().Draw(t, "ndtls")
 	if !c.ND && !c.NDC && !c.NDTLS {
@@ -128,6 +135,9 @@ func genDialCell(t *rapid.T) DialCell {
 		c.ProxyReply = rapid.SampledFrom(refusals).Draw(t, "refusal")
 	}
 	c.NilTLS = rapid.IntRange(0, 5).Draw(t, "niltls") == 0
+	if c.Proxy == "" && c.Secure && (c.ND || c.NDC) && !c.NDTLS && rapid.Bool().Draw(t, "hook_tls") {
+		c.HookTLS = true
+	}
 	if rapid.IntRange(0, 3).Draw(t, "host_header") == 0 {
 		c.HostHeader = rapid.SampledFrom([]string{"virtual.example", "other.test:8443", "backend.test"}).Draw(t, "host_header_v")
 	}
@@ -142,6 +152,13 @@ type hookLog struct {
 }
 
 func checkC18(c DialCell, o *Obs) error {
+	// socks5h is SOCKS5 with names resolved by the proxy (the client sends
+	// names either way); any other scheme is not a proxy the library knows
+	proxyScheme := c.Proxy
+	if c.Proxy == "socks5h" {
+		c.Proxy = "socks5"
+	}
+	unknownProxy := c.Proxy != "" && c.Proxy != "http" && c.Proxy != "https" && c.Proxy != "socks5"
 	entitySecure := c.Proxy == "https" || (c.Proxy == "" && c.Secure)
 	wantFn := "NetDial"
 	switch {
@@ -212,6 +229,7 @@ func checkC18(c DialCell, o *Obs) error {
 		}
 		o.Class("firsthop_default_dialer_over_loopback")
 	}
+	hookTLS := c.HookTLS && c.Proxy == "" && c.Secure && (wantFn == "NetDial" || wantFn == "NetDialContext")
 	mk := func(name string) func(ctx context.Context, network, addr string) (net.Conn, error) {
 		return func(ctx context.Context, network, addr string) (net.Conn, error) {
 			end, log := startPeer(spec)
@@ -220,6 +238,9 @@ func checkC18(c DialCell, o *Obs) error {
 			hl.logs = append(hl.logs, log)
 			hl.ends = append(hl.ends, end)
 			hl.mu.Unlock()
+			if hookTLS {
+				return tls.Client(end, &tls.Config{InsecureSkipVerify: true, ServerName: "relay.test"}), nil
+			}
 			return end, nil
 		}
 	}
@@ -238,7 +259,7 @@ func checkC18(c DialCell, o *Obs) error {
 		d.TLSClientConfig = &tls.Config{RootCAs: getPKI().pool}
 	}
 	if c.Proxy != "" {
-		pu := c.Proxy + "://"
+		pu := proxyScheme + "://"
 		if c.Creds != "" {
 			pu += c.Creds + "@"
 		}
@@ -282,6 +303,48 @@ func checkC18(c DialCell, o *Obs) error {
 		}
 		if (conn == nil) == (err == nil) {
 			return fmt.Errorf("dial %d: Dial returned conn=%v err=%v", hi, conn != nil, err)
+		}
+		if hookTLS {
+			hl.mu.Lock()
+			var ur int
+			for _, lg := range hl.logs {
+				lg.mu.Lock()
+				ur += lg.UpgradeReqs
+				lg.mu.Unlock()
+			}
+			hl.mu.Unlock()
+			if conn != nil {
+				conn.Close()
+			}
+			for _, e := range hl.ends {
+				e.Close()
+			}
+			for _, lg := range hl.logs {
+				lg.wait()
+			}
+			if err == nil || ur != 0 {
+				return fmt.Errorf("dial %d: %s returned a *tls.Conn it had set up without verification; Dial returned err=%v and the backend received %d upgrade request(s) - the handshake was sent in a TLS session the library never verified for %q (only NetDialTLSContext is trusted to have done TLS)", hi, wantFn, err, ur, host)
+			}
+			o.Class("dial_function_returning_tls_conn_not_trusted")
+			continue
+		}
+		if unknownProxy {
+			// a proxy of a kind the library cannot drive: the backend must not be
+			// reached some other way
+			hl.mu.Lock()
+			n := len(hl.calls) - callsBefore
+			var ur int
+			for _, lg := range hl.logs {
+				lg.mu.Lock()
+				ur += lg.UpgradeReqs
+				lg.mu.Unlock()
+			}
+			hl.mu.Unlock()
+			if err == nil || ur != 0 {
+				return fmt.Errorf("dial %d: proxy URL scheme %q is not one the library can drive, yet Dial returned err=%v after %d dial call(s) and the backend received %d upgrade request(s): the configured proxy was bypassed", hi, proxyScheme, err, n, ur)
+			}
+			o.Class("unknown_proxy_scheme_refused")
+			continue
 		}
 		// ---- first hop
 		if wantFn == "default" {
@@ -436,7 +499,7 @@ func checkC18(c DialCell, o *Obs) error {
 		}
 		o.Class("dial_ok")
 	}
-	o.Class("proxy_" + c.Proxy)
+	o.Class("proxy_" + proxyScheme)
 	o.ClassIf(c.Secure, "wss")
 	o.Class("firsthop_" + wantFn)
 	if c.Proxy != "" || c.Secure {
